@@ -190,6 +190,7 @@ type cronWorld struct {
 	w0, w1   int64                               // oracle window (seconds)
 	specIDs  map[string]int
 	nextVer  int
+	uidSeq   int
 	maxList  int
 	tooDense bool
 }
@@ -327,8 +328,8 @@ func (w *cronWorld) describe(jc *execution.JobConfig, tz tzChoice) *jcVersion {
 	} else if v.enabled && !v.parseErr {
 		lists = "none" // enabled with zero expressions
 	}
-	w.c.Emit(fmt.Sprintf("cron.jc %d %s %s %s %s %s %s %s %d %s", v.id, Q(v.key), B(v.enabled), B(v.parseErr), lists,
-		OptI(v.nbf), OptI(v.naf), OptI(v.lu), v.specID, OptI(v.ls)), "ok")
+	w.c.Emit(fmt.Sprintf("cron.jc %d %s %s %s %s %s %s %s %d %s %s", v.id, Q(v.key), B(v.enabled), B(v.parseErr), lists,
+		OptI(v.nbf), OptI(v.naf), OptI(v.lu), v.specID, OptI(v.ls), Q(string(jc.UID))), "ok")
 	return v
 }
 
@@ -341,7 +342,11 @@ func (w *cronWorld) genJC(nsname string, now int64) (*execution.JobConfig, tzCho
 	if i := strings.Index(nsname, "/"); i >= 0 {
 		ns, name = nsname[:i], nsname[i+1:]
 	}
-	jc := &execution.JobConfig{ObjectMeta: metav1.ObjectMeta{Namespace: ns, Name: name, UID: types.UID("uid-" + name2uid(nsname))}}
+	// every created object gets a fresh UID, as the API server would give it (a recreation
+	// under the same name is another object); the callers override it for the UID-less and
+	// same-UID corners
+	w.uidSeq++
+	jc := &execution.JobConfig{ObjectMeta: metav1.ObjectMeta{Namespace: ns, Name: name, UID: types.UID(fmt.Sprintf("uid-%s-%d", name2uid(nsname), w.uidSeq))}}
 	span := []int64{120, 7200, 20 * 86400}[w.scale]
 	near := func() int64 {
 		switch rng.Intn(6) {
@@ -587,6 +592,10 @@ func cronCase(c *Ctx, rng *rand.Rand) {
 			}
 		}
 		jc, tz := w.genJC(name, now0/1e9)
+		if rng.Intn(12) == 0 {
+			jc.UID = "" // an object without UID (never from a real API server; the code compares UIDs)
+			c.Count("cron.jc.uidless")
+		}
 		v := w.describe(jc, tz)
 		cur[v.key] = v
 		curTZ[v.key] = tz
@@ -608,13 +617,54 @@ func cronCase(c *Ctx, rng *rand.Rand) {
 	h := &captureHandler{}
 	worker := croncontroller.NewCronWorker(cctx, h)
 	infw := croncontroller.NewInformerWorker(cctx, croncontroller.NewUpdateHandler(cctx))
+	// The informer notifies the cron handler of every JobConfig that exists at boot with an add
+	// event (FakeInformer.ReplayOnRegister); when the handler gets to run each of them is the
+	// adversary's choice, per JobConfig: before CronWorker.Init, between Init and the first tick,
+	// or after some ticks (slot i+2 = after the i-th tick; beyond the last tick = never).
+	jcInf.ReplayOnRegister = true
 	infw.Init()
+	pendingInit := map[string]*jcVersion{}
+	initSlot := map[string]int{}
+	allAfterInit := rng.Intn(4) == 0 // the typical production order, for the whole population
+	for _, k := range keys {
+		pendingInit[k] = cur[k]
+		switch r := rng.Intn(8); {
+		case allAfterInit || r < 3:
+			initSlot[k] = 1
+		case r < 5:
+			initSlot[k] = 0
+		default:
+			initSlot[k] = 2 + rng.Intn(nsteps+1)
+		}
+	}
+	deliverInitial := func(k, where string) {
+		v := pendingInit[k]
+		if v == nil {
+			return
+		}
+		delete(pendingInit, k)
+		if !jcInf.NotifyNextFor(0, k) {
+			panic("cron engine: no pending initial add for " + k)
+		}
+		c.Emit(fmt.Sprintf("cron.initial-add %d", v.id), "ok")
+		c.Count("cron.initial-add")
+		c.Count("cron.initial-add." + where)
+	}
+	deliverSlot := func(slot int, where string) {
+		for _, k := range keys {
+			if pendingInit[k] != nil && initSlot[k] == slot {
+				deliverInitial(k, where)
+			}
+		}
+	}
+	deliverSlot(0, "before-init")
 	initErr := worker.Init()
 	anyBroken := false
 	for _, v := range cur {
 		anyBroken = anyBroken || v.brokenLib
 	}
 	c.Emit(fmt.Sprintf("cron.init %d %s", now0, strings.Join(initIDs, ",")), map[bool]string{true: "ok", false: "err"}[initErr == nil])
+	deliverSlot(1, "after-init")
 	if initErr != nil {
 		c.Count("cron.init-error")
 	} else {
@@ -636,6 +686,7 @@ func cronCase(c *Ctx, rng *rand.Rand) {
 	firedAfter := map[string][]int64{}
 	capHit := map[string]bool{}
 	firedTotal := 0
+	lastObj := map[string]*execution.JobConfig{} // the deleted incarnation of a key
 	noteChange := func(k string, at int64) {
 		changedAt[k] = at
 		flushTick[k] = 0
@@ -643,11 +694,14 @@ func cronCase(c *Ctx, rng *rand.Rand) {
 		capHit[k] = false
 	}
 
-	for _, at := range times {
+	for ti, at := range times {
 		// events before the tick
 		for rng.Intn(4) == 0 {
 			k := keys[rng.Intn(len(keys))]
 			old := cur[k]
+			// the handler runs its notifications of one object in order: the add for the object
+			// that existed at boot comes before any later event of that object
+			deliverInitial(k, "forced-by-event")
 			switch r := rng.Intn(10); {
 			case r < 5 && old != nil: // update spec (new schedule) or status only
 				nj := old.obj.DeepCopy()
@@ -685,12 +739,19 @@ func cronCase(c *Ctx, rng *rand.Rand) {
 			case r < 7 && old != nil: // delete
 				jcInf.Apply("delete", old.obj)
 				c.Emit(fmt.Sprintf("cron.delete %d", old.id), "ok")
+				lastObj[k] = old.obj
 				cur[k] = nil
 				noteChange(k, at)
 				c.Count("cron.ev.delete")
 			case old == nil: // (re)create
 				name := strings.TrimPrefix(k, "ns/")
 				jc, tz := w.genJC(name, at/1e9)
+				if prev := lastObj[k]; prev != nil && (prev.UID == "" || rng.Intn(8) == 0) {
+					// corner: the recreated object carries the UID of the deleted one (UID-less
+					// objects always do)
+					jc.UID = prev.UID
+					c.Count("cron.ev.add.same-uid")
+				}
 				v := w.describe(jc, tz)
 				cur[k], curTZ[k] = v, tz
 				noteChange(k, at)
@@ -832,7 +893,9 @@ func cronCase(c *Ctx, rng *rand.Rand) {
 				}
 			}
 		}
+		deliverSlot(ti+2, "after-ticks")
 	}
+	c.Stats["cron.initial-add.never"] += int64(len(pendingInit))
 	// C03 liveness: a key created / enabled / re-scheduled at run time fires the first match
 	// after the tick that followed the change (when the run lasted long enough and cap >= 1).
 	if initErr == nil && len(times) > 0 && maxMissed >= 1 {
